@@ -241,11 +241,15 @@ func NthPerm(n, k int) []int {
 }
 
 // Alternatives lists the non-canonical choices explored for a visit of n keys.
-func Alternatives(n int) (alts []Choice, capped bool) {
+func Alternatives(n int) (alts []Choice, capped bool) { return AlternativesUpTo(n, MaxPermN) }
+
+// AlternativesUpTo enumerates all permutations for n <= maxPerm, otherwise
+// reversal, rotations and adjacent transpositions (capped = true).
+func AlternativesUpTo(n, maxPerm int) (alts []Choice, capped bool) {
 	if n < 2 {
 		return nil, false
 	}
-	if n <= MaxPermN {
+	if n <= maxPerm {
 		fact := 1
 		for i := 2; i <= n; i++ {
 			fact *= i
